@@ -92,6 +92,25 @@ BUILT = {
   ref="3 C19"),
 }
 
+
+BUILT.update({
+ "C16": dict(
+  technique=PBT + "; repetition oracle (20 in-process repetitions with fresh hash seeds, 4-40 fresh processes per input) + canonical-order invariants; PDF text runs via the verif-hooks feature",
+  text="Ledgers with 6-12 securities, many disposals per date and several tax years are calculated and formatted repeatedly; text/JSON bytes, PDF text runs (minus the generation date) and the stdout of report/parse/convert across fresh processes must be identical; years, disposals, holdings and echoed trades must be canonically ordered.",
+  note="Schedules (hash seeds) are resampled, not enumerated: with k keys a missing sort survives one comparison with probability about 1/k!.",
+  ref="3 C16"),
+ "C17": dict(
+  technique=PBT + "; differential oracle between each front-end (plain text, JSON, PDF text runs via verif-hooks, MCP calculate_report/explain_matching) and figures recomputed in exact rationals with half-away-from-zero rounding",
+  text="Generated reports incl. a half-penny midpoint stratum and a >= 1,000,000 stratum; every figure located through the documented layout and compared with the computed value (in full or rounded to pence), structure (years, disposals, legs, holdings, transactions) compared across front-ends.",
+  note="PDF read through the verif-hooks feature of cgt-formatter-pdf (text runs of the compiled document). Known finding F8 (binary-float rounding in the PDF) is attributed only when a reproduction of the template's float pipeline yields exactly the shown text.",
+  ref="3 C17"),
+ "C20": dict(
+  technique="stateful/model-based generation of JSON-RPC sessions (vec of request specs + interpreter) against the real `cgt-tool mcp` process, pipelined and sequential, 4-8 concurrent sessions; oracles: one response per id, liveness until EOF, statelessness (same request => same answer across positions, deliveries and sessions), differential vs library/CLI",
+  text="Sessions of 5-60 well-formed and malformed requests over the five tools and the resource methods are run twice (as generated and reversed one at a time); answers are compared per request content and against cgt-core / cgt-tool report/parse and the independent FX table.",
+  note="tokio interleavings are provoked, not enumerated. Known findings F7 (overflow request never answered) and F16 (non-object params stops the server) are attributed by exact signature. Requests with methods outside the MCP schema are outside the statement's domain and not generated.",
+  ref="3 C20"),
+})
+
 NOT_YET = "check not finished yet in this round (process-level / PDF parts in progress); not claimed until it runs clean"
 
 props = [json.loads(l) for l in open('/verif/properties.jsonl')]
